@@ -3,7 +3,7 @@ from ..ir import AnalysisBroken, strip_targs, qmatch
 from ..graph import Graph
 from ..expr import access_path, path_str, reaching_defs, norm_cond, origins
 from ..linear import linear, relation, rel_str, fmt
-from ..symb import eval3
+from ..symb import eval3, returns_under_pins
 from .common import strip_casts, short, atomic_op, comparison
 
 UNITS = []
@@ -390,13 +390,10 @@ def rule_r4(ck, prog):
     if not ex:
         ck.violation('C11.R4', f, 'try_lock-exchange', None, 'try_lock() has no atomic exchange: test and set are not one atomic step')
     else:
-        okall = True
-        for rp in g.returns():
-            pins = {e['i']: True for e in ex}
-            v = eval3(f, rp.n.get('e'), {}, pins)
-            if v is not False:
-                # the return may not depend on the exchange at all on this path only if the exchange was not executed
-                okall = False
+        # decision table: with the exchange pinned to "found the flag set" every feasible return value is false (named results,
+        # early returns and negations are folded by the path explorer); a return that does not execute the exchange cannot say true
+        vals = returns_under_pins(g, {e['i']: True for e in ex})
+        okall = vals == {False}
         a0 = f.nodes[ex[0]['args'][0]] if ex[0].get('args') else None
         if a0 is None or a0.get('v') != 1:
             okall = False
